@@ -75,10 +75,11 @@ var plainNames = []string{"a", "b", "c", "d", "e", "f", "dir", "src", "lib", "x.
 var hostileNames = []string{"a b", " lead", "trail ", "q\"uote", "it's", "back\\slash", "co:lon", "[1]", "[2] x", "tab\there", "new\nline", "cr\rx", "\x01ctl", "\x7f", "\xff\xfe", "caf\xc3\xa9", "*", "?", "|pipe", "$(x)", "`x`", "~", "^", "@{", "-dash", "--include", "..x", "x..", "a\\", "{}", "<>", "&", ";", "#", "%s", "%d", "\xe2\x88\x9e", ".gitmodules", "x]", "(p)", "^{tree}", "~1"}
 
 func (g G) entryName(style int, long bool) string {
-	if long && g.Rare(1, 80, "giantname") {
+	if long && g.Rare(1, 50, "giantname") {
 		// legal in a tree object, far beyond any buffer: the path that
 		// `git rev-list --objects` prints for it exceeds 64 KiB
-		return strings.Repeat("G", g.PickInt([]int{65494, 65495, 65496, 70000, 140000}, "giantlen"))
+		// (lengths around multiples of the 4 KiB read buffers and around 64 KiB)
+		return strings.Repeat("G", g.PickInt([]int{4055, 4056, 4057, 8150, 8151, 8152, 8193, 12288, 20000, 65494, 65495, 65496, 70000, 140000}, "giantlen"))
 	}
 	if long && g.Chance(1, 12, "longname") {
 		n := g.Int(100, 400, "longlen")
